@@ -23,11 +23,16 @@ def main():
             from amaranth.sim import Simulator
             top, outs = c09.build_conv(d)
             s1 = rtlil.convert(top, ports=outs, emit_src=False)
-            s2 = rtlil.convert(top, ports=outs, emit_src=False)
-            Simulator(top)
-            s3 = rtlil.convert(top, ports=outs, emit_src=False)
+            again = []
+            for with_sim in (False, True):
+                try:
+                    if with_sim:
+                        Simulator(top)
+                    again.append(h(rtlil.convert(top, ports=outs, emit_src=False)))
+                except Exception as e:
+                    again.append("EXC:" + type(e).__name__ + ":" + str(e)[:100])
             ports = [ln.split()[-1] for ln in t1.splitlines() if ln.strip().startswith("wire") and (" input " in ln or " output " in ln)][:40]
-            out.append([h(t1), h(t2), h(t3), ports, h(s1), h(s2), h(s3)])
+            out.append([h(t1), h(t2), h(t3), ports, h(s1)] + again)
         except Exception as e:
             out.append(["EXC:" + type(e).__name__ + ":" + str(e)[:100]] * 3 + [[]] + ["EXC"] * 3)
     print(json.dumps(out))
